@@ -557,7 +557,8 @@ func (c *Cluster) rowFor(n *Node) *PeerRow {
 	if n.PeerIP != nil {
 		peer = n.PeerIP
 	}
-	return &PeerRow{Peer: peer, RPC: n.IP, HostID: n.HostID[:], DC: n.DC, Rack: n.Rack, Tokens: n.Tokens, Version: n.Release, SchemaVer: c.SchemaVer[:], NativePort: n.Port}
+	id := n.HostID // copied: the row must not alias the node's array (SetHostID overwrites it)
+	return &PeerRow{Peer: peer, RPC: n.IP, HostID: id[:], DC: n.DC, Rack: n.Rack, Tokens: n.Tokens, Version: n.Release, SchemaVer: c.SchemaVer[:], NativePort: n.Port}
 }
 
 func setText(l []string) []byte {
